@@ -470,3 +470,404 @@ Section XmlProofs.
     Qed.
   End Domain.
 End XmlProofs.
+
+(* ------------------------------------------------------------------------------------------ *)
+(* (2)-(5) documents: XML round trip and root tag, option irrelevance, formats agree           *)
+(* ------------------------------------------------------------------------------------------ *)
+Section CodecProofs.
+  Variable B : Type.
+  Variable str_of_float : spec_float -> str.
+  Variable float_of_str : str -> option spec_float.
+  Variable et_print : elem -> B.
+  Variable et_parse : B -> option elem.
+  Variable yaml_enc : pdata -> B.
+  Variable yaml_dec : B -> option pdata.
+  Variable json_enc : bool -> pdata -> B.
+  Variable json_dec : B -> option pdata.
+  Variable bson_enc : pdata -> B.
+  Variable bson_dec : B -> option pdata.
+  Variable pickle_enc : pdata -> B.
+  Variable pickle_dec : B -> option pdata.
+  Variable name_ok : str -> bool.            (* names the XML parser accepts *)
+  Variable yaml_dom json_dom bson_dom pickle_dom : pdata -> Prop.     (* each library's representable trees *)
+
+  Hypothesis float_text_law : forall f, valid_b64 f = true -> float_of_str (str_of_float f) = Some f.
+  Hypothesis float_text_xml : forall f, xml_text (str_of_float f) = true.
+  Hypothesis name_item : name_ok (sa "item") = true.
+  Hypothesis name_type : name_ok (sa "type") = true.
+  (* ET.tostring -> minidom pretty printer -> ET.fromstring: structure, attributes and leaf text survive *)
+  Hypothesis et_law : forall e, elem_ok name_ok e = true ->
+    exists e', et_parse (et_print e) = Some e' /\ elem_sim e e'.
+  (* PyYAML: dump sorts the keys of every map (sort_keys=True), load reads them back *)
+  Hypothesis yaml_law : forall v, yaml_dom v -> yaml_dec (yaml_enc v) = Some (sort_keys v).
+  Hypothesis json_law : forall pretty v, json_dom v -> json_dec (json_enc pretty v) = Some v.
+  Hypothesis bson_law : forall v, bson_dom v -> bson_dec (bson_enc v) = Some v.
+  Hypothesis pickle_law : forall v, pickle_dom v -> pickle_dec (pickle_enc v) = Some v.
+
+  Notation xdumps := (xml_dumps B str_of_float et_print).
+  Notation xloads := (xml_loads B float_of_str et_parse).
+  Notation ydumps := (yaml_dumps B yaml_enc).
+  Notation yloads := (yaml_loads B yaml_dec).
+  Notation dumps := (fmt_dumps B str_of_float et_print yaml_enc json_enc bson_enc pickle_enc).
+  Notation loads := (fmt_loads B float_of_str et_parse yaml_dec json_dec bson_dec pickle_dec).
+  Notation xml_domain := (Formats.xml_domain name_ok).
+  Notation in_domain := (Formats.in_domain name_ok yaml_dom json_dom bson_dom pickle_dom).
+
+
+  Theorem xml_roundtrip : forall rt m, xml_domain rt m -> xloads rt (xdumps rt m) = Ok (VMap m).
+  Proof.
+    intros rt m (Hrt & W & X). unfold xml_loads, xml_dumps.
+    destruct (et_law (to_element str_of_float rt (VMap m))) as [e' [Hp Hs]].
+    - apply (to_element_ok str_of_float name_ok name_item name_type float_text_xml); assumption.
+    - rewrite Hp. apply (load_root_sim str_of_float float_of_str float_text_law); assumption.
+  Qed.
+
+  Theorem xml_wrong_root : forall rt rt' m, xml_domain rt m -> rt <> rt' -> xloads rt' (xdumps rt m) = Err EValue.
+  Proof.
+    intros rt rt' m (Hrt & W & X) Hne. unfold xml_loads, xml_dumps.
+    destruct (et_law (to_element str_of_float rt (VMap m))) as [e' [Hp Hs]].
+    - apply (to_element_ok str_of_float name_ok name_item name_type float_text_xml); assumption.
+    - rewrite Hp. eapply load_wrong_root; eassumption.
+  Qed.
+
+  Theorem xml_root_tag_irrelevant : forall rt rt' m, xml_domain rt m -> xml_domain rt' m ->
+    xloads rt (xdumps rt m) = xloads rt' (xdumps rt' m).
+  Proof. intros rt rt' m H H'. rewrite (xml_roundtrip rt m H), (xml_roundtrip rt' m H'). reflexivity. Qed.
+
+
+  Theorem yaml_roundtrip : forall rk m, yaml_dom (yaml_doc rk m) -> yloads rk (ydumps rk m) = Ok (sort_keys (VMap m)).
+  Proof.
+    intros rk m D. unfold yaml_loads, yaml_dumps. fold (yaml_doc rk m). rewrite (yaml_law _ D).
+    destruct rk as [[|c r]|]; cbn [yaml_doc]; try reflexivity.
+    change (sort_keys (VMap [(c :: r, VMap m)])) with (VMap [(c :: r, sort_keys (VMap m))]).
+    cbn [assoc]. rewrite str_eqb_refl. reflexivity.
+  Qed.
+
+  (* every root_key (None, "", any key, a key that also occurs in the tree) gives what root_key=None gives *)
+  Theorem yaml_root_key_irrelevant : forall rk m, yaml_dom (yaml_doc rk m) -> yaml_dom (VMap m) ->
+    yloads rk (ydumps rk m) = yloads None (ydumps None m).
+  Proof. intros rk m D D0. rewrite (yaml_roundtrip rk m D). rewrite (yaml_roundtrip None m D0). reflexivity. Qed.
+
+  Theorem json_roundtrip : forall pretty m, json_dom (VMap m) ->
+    loads (FJson pretty) (dumps (FJson pretty) m) = Ok (VMap m).
+  Proof. intros p m D. cbn [fmt_loads fmt_dumps]. rewrite (json_law p _ D). reflexivity. Qed.
+
+  Theorem json_pretty_irrelevant : forall p p' q q' m, json_dom (VMap m) ->
+    loads (FJson q) (dumps (FJson p) m) = loads (FJson q') (dumps (FJson p') m).
+  Proof. intros p p' q q' m D. cbn [fmt_loads fmt_dumps]. rewrite !(json_law _ _ D). reflexivity. Qed.
+
+
+  Theorem fmt_roundtrip : forall f m, in_domain f m ->
+    exists v, loads f (dumps f m) = Ok v /\ same_tree v (VMap m).
+  Proof.
+    intros f m D. destruct f as [p| |rt|rk|]; cbn [in_domain] in D.
+    - exists (VMap m). split; [apply json_roundtrip; exact D | left; reflexivity].
+    - exists (VMap m). split; [|left; reflexivity]. cbn [fmt_loads fmt_dumps]. rewrite (pickle_law _ D). reflexivity.
+    - exists (VMap m). split; [|left; reflexivity]. apply xml_roundtrip. exact D.
+    - exists (sort_keys (VMap m)). split; [|right; reflexivity]. apply yaml_roundtrip. exact D.
+    - exists (VMap m). split; [|left; reflexivity]. cbn [fmt_loads fmt_dumps]. rewrite (bson_law _ D). reflexivity.
+  Qed.
+
+  Theorem formats_agree : forall f g m, in_domain f m -> in_domain g m ->
+    exists v w, loads f (dumps f m) = Ok v /\ loads g (dumps g m) = Ok w
+                /\ same_tree v (VMap m) /\ same_tree w (VMap m).
+  Proof.
+    intros f g m Df Dg.
+    destruct (fmt_roundtrip f m Df) as [v [Hv Sv]]. destruct (fmt_roundtrip g m Dg) as [w [Hw Sw]].
+    exists v, w. repeat split; assumption.
+  Qed.
+
+  (* option values never change the decoded result: same format class, any two option values *)
+  Theorem options_irrelevant : forall f g m, same_class f g = true -> in_domain f m -> in_domain g m ->
+    loads f (dumps f m) = loads g (dumps g m).
+  Proof.
+    intros f g m C Df Dg. destruct f, g; try discriminate C; cbn [in_domain] in Df, Dg.
+    - rewrite (json_roundtrip _ m Df), (json_roundtrip _ m Dg). reflexivity.
+    - reflexivity.
+    - cbn [fmt_loads fmt_dumps]. apply xml_root_tag_irrelevant; assumption.
+    - cbn [fmt_loads fmt_dumps]. rewrite (yaml_roundtrip _ m Df), (yaml_roundtrip _ m Dg). reflexivity.
+    - reflexivity.
+  Qed.
+End CodecProofs.
+
+(* sort_keys only reorders: the sorted map answers every lookup as the original (distinct keys) *)
+Lemma assoc_insert_key : forall k kv l, ~ In (fst kv) (map fst l) ->
+  assoc str_eqb k (insert_key kv l) = if str_eqb k (fst kv) then Some (snd kv) else assoc str_eqb k l.
+Proof.
+  intros k [k1 x1] l. induction l as [|[k2 x2] r IH]; intros Hn; cbn [insert_key assoc fst snd].
+  - reflexivity.
+  - destruct (str_ltb k1 k2); cbn [assoc fst snd]; [reflexivity|].
+    rewrite IH by (intro Hin; apply Hn; right; exact Hin).
+    destruct (str_eqb k k2) eqn:E2; [|reflexivity].
+    destruct (str_eqb k k1) eqn:E1; [|reflexivity].
+    apply str_eqb_eq in E1. apply str_eqb_eq in E2. subst. exfalso. apply Hn. left. reflexivity.
+Qed.
+
+Lemma insert_key_keys : forall kv l k, In k (map fst (insert_key kv l)) <-> k = fst kv \/ In k (map fst l).
+Proof.
+  intros kv l k. induction l as [|h r IH]; cbn [insert_key map In fst].
+  - split; intros [H|H]; auto.
+  - destruct (str_ltb (fst kv) (fst h)); cbn [map In fst].
+    + split; intros [H|H]; auto.
+    + rewrite IH. split; intros H; tauto.
+Qed.
+
+Definition sorted_entries (m : list (str * pdata)) : list (str * pdata) :=
+  (fix go (m : list (str * pdata)) : list (str * pdata) :=
+     match m with [] => [] | (k, x) :: r => insert_key (k, sort_keys x) (go r) end) m.
+
+Lemma sorted_entries_keys : forall m k, In k (map fst (sorted_entries m)) <-> In k (map fst m).
+Proof.
+  induction m as [|[k1 x1] r IH]; intros k; [reflexivity|].
+  change (sorted_entries ((k1, x1) :: r)) with (insert_key (k1, sort_keys x1) (sorted_entries r)).
+  rewrite insert_key_keys, IH. cbn [map In fst]. split; intros [H|H]; auto.
+Qed.
+
+Theorem sort_keys_lookup : forall m k, NoDup (map fst m) ->
+  sort_keys (VMap m) = VMap (sorted_entries m) /\
+  assoc str_eqb k (sorted_entries m) = option_map sort_keys (assoc str_eqb k m).
+Proof.
+  intros m k Hnd. split; [reflexivity|].
+  induction m as [|[k1 x1] r IH]; [reflexivity|].
+  cbn [map fst] in Hnd. inversion Hnd as [|? ? Hn Hr]; subst.
+  change (sorted_entries ((k1, x1) :: r)) with (insert_key (k1, sort_keys x1) (sorted_entries r)).
+  rewrite assoc_insert_key by (cbn [fst]; rewrite sorted_entries_keys; exact Hn).
+  cbn [assoc fst snd]. destruct (str_eqb k k1); [reflexivity | apply IH; exact Hr].
+Qed.
+
+(* ------------------------------------------------------------------------------------------ *)
+(* (6) the ConfigFormat registry                                                               *)
+(* ------------------------------------------------------------------------------------------ *)
+Lemma builtin_nodup : NoDup (map fst builtin_formats).
+Proof. apply keys_distinct_NoDup. reflexivity. Qed.
+
+Lemma reg_initialize_init : forall s, r_init (reg_initialize s) = true.
+Proof. intros s. unfold reg_initialize. destruct (r_init s) eqn:E; [exact E | reflexivity]. Qed.
+
+Definition reg_lookup (name : str) (t : list (str * N)) : res N :=
+  match assoc str_eqb name t with Some c => Ok c | None => Err EKey end.
+
+(* get(name): the class stored under name once the built-in table has been merged in *)
+Theorem reg_get_spec : forall name s,
+  snd (reg_get name s) =
+    if r_init s then reg_lookup name (r_tab s)
+    else match assoc str_eqb name builtin_formats with
+         | Some c => Ok c                                 (* initialize_registry overwrites earlier registrations *)
+         | None => reg_lookup name (r_tab s)
+         end.
+Proof.
+  intros name s. unfold reg_get, reg_initialize, reg_lookup. cbn [snd]. destruct (r_init s); cbn [r_tab]; [reflexivity|].
+  rewrite assoc_fold_set by apply builtin_nodup.
+  destruct (assoc str_eqb name builtin_formats); reflexivity.
+Qed.
+
+Theorem reg_get_builtin : forall name c, In (name, c) builtin_formats -> snd (reg_get name reg_fresh) = Ok c.
+Proof.
+  intros name c H. cbn [builtin_formats In] in H.
+  repeat (destruct H as [H|H]; [inversion H; subst; reflexivity|]). contradiction.
+Qed.
+
+Theorem reg_get_unknown : forall name, assoc str_eqb name builtin_formats = None -> snd (reg_get name reg_fresh) = Err EKey.
+Proof. intros name H. rewrite reg_get_spec. cbn [reg_fresh r_init r_tab]. rewrite H. reflexivity. Qed.
+
+(* a class registered after initialisation, or under a name that is not built in, is the one returned *)
+Theorem reg_get_registered : forall s name c,
+  r_init s = true \/ assoc str_eqb name builtin_formats = None ->
+  snd (reg_get name (reg_register name c s)) = Ok c.
+Proof.
+  intros s name c H. rewrite reg_get_spec. unfold reg_register, reg_lookup. cbn [r_init r_tab].
+  rewrite assoc_set_same. destruct (r_init s); [reflexivity|].
+  destruct H as [H|H]; [discriminate | rewrite H; reflexivity].
+Qed.
+
+Theorem reg_register_other : forall s name name' c, name' <> name ->
+  snd (reg_get name' (reg_register name c s)) = snd (reg_get name' s).
+Proof.
+  intros s name name' c Hne. rewrite !reg_get_spec. unfold reg_register, reg_lookup. cbn [r_init r_tab].
+  rewrite assoc_set_other by exact Hne. reflexivity.
+Qed.
+
+Theorem reg_get_stable : forall s name, r_init s = true -> fst (reg_get name s) = s.
+Proof. intros s name H. unfold reg_get, reg_initialize. cbn [fst]. rewrite H. reflexivity. Qed.
+
+(* a registration made BEFORE the registry is initialised under a built-in name is lost *)
+Example reg_preinit_override_lost :
+  snd (reg_get (sa "json") (reg_register (sa "json") 10%N reg_fresh)) = Ok 0%N.
+Proof. reflexivity. Qed.
+
+(* ------------------------------------------------------------------------------------------ *)
+(* the same theorems over the library record                                                    *)
+(* ------------------------------------------------------------------------------------------ *)
+Section OverLib.
+  Variable B : Type.
+  Variable L : lib B.
+  Hypothesis H : lib_laws L.
+
+  Theorem L_from_to_element : forall k v, wf v = true ->
+    from_element (l_float_of_str L) None (to_element (l_str_of_float L) k v) = Ok v.
+  Proof. apply from_to_element. apply (law_float L H). Qed.
+
+  Theorem L_from_to_parsed : forall k v e', wf v = true -> elem_sim (to_element (l_str_of_float L) k v) e' ->
+    from_element (l_float_of_str L) None e' = Ok v.
+  Proof. intros k v e' W S. exact (from_to_sim _ _ (law_float L H) v W k e' S). Qed.
+
+  Theorem L_xml_roundtrip : forall rt m, representable L (FXml rt) m -> loads L (FXml rt) (dumps L (FXml rt) m) = Ok (VMap m).
+  Proof.
+    intros rt m D. unfold loads, dumps. cbn [fmt_loads fmt_dumps].
+    apply (xml_roundtrip B _ _ _ _ (l_name_ok L) (law_float L H) (law_float_xml L H) (law_name_item L H) (law_name_type L H) (law_et L H)).
+    exact D.
+  Qed.
+
+  Theorem L_xml_wrong_root : forall rt rt' m, representable L (FXml rt) m -> rt <> rt' ->
+    loads L (FXml rt') (dumps L (FXml rt) m) = Err EValue.
+  Proof.
+    intros rt rt' m D Hne. unfold loads, dumps. cbn [fmt_loads fmt_dumps].
+    apply (xml_wrong_root B _ _ _ _ (l_name_ok L) (law_float_xml L H) (law_name_item L H) (law_name_type L H) (law_et L H)); assumption.
+  Qed.
+
+  Theorem L_yaml_roundtrip : forall rk m, representable L (FYaml rk) m ->
+    loads L (FYaml rk) (dumps L (FYaml rk) m) = Ok (sort_keys (VMap m)).
+  Proof.
+    intros rk m D. unfold loads, dumps. cbn [fmt_loads fmt_dumps].
+    apply (yaml_roundtrip B _ _ (l_yaml_dom L) (law_yaml L H)). exact D.
+  Qed.
+
+  Theorem L_options_irrelevant : forall f g m, same_class f g = true -> representable L f m -> representable L g m ->
+    loads L f (dumps L f m) = loads L g (dumps L g m).
+  Proof.
+    intros f g m. unfold loads, dumps, representable.
+    apply (options_irrelevant B _ _ _ _ _ _ _ _ _ _ _ _ (l_name_ok L) (l_yaml_dom L) (l_json_dom L) (l_bson_dom L) (l_pickle_dom L)
+             (law_float L H) (law_float_xml L H) (law_name_item L H) (law_name_type L H) (law_et L H) (law_yaml L H) (law_json L H)).
+  Qed.
+
+  Theorem L_json_pretty_irrelevant : forall p p' q q' m, representable L (FJson p) m ->
+    loads L (FJson q) (dumps L (FJson p) m) = loads L (FJson q') (dumps L (FJson p') m).
+  Proof.
+    intros p p' q q' m D. unfold loads, dumps.
+    apply (json_pretty_irrelevant B _ _ _ _ _ _ _ _ _ _ _ _ (l_json_dom L) (law_json L H)). exact D.
+  Qed.
+
+  Theorem L_fmt_roundtrip : forall f m, representable L f m ->
+    exists v, loads L f (dumps L f m) = Ok v /\ same_tree v (VMap m).
+  Proof.
+    intros f m. unfold loads, dumps, representable.
+    apply (fmt_roundtrip B _ _ _ _ _ _ _ _ _ _ _ _ (l_name_ok L) (l_yaml_dom L) (l_json_dom L) (l_bson_dom L) (l_pickle_dom L)
+             (law_float L H) (law_float_xml L H) (law_name_item L H) (law_name_type L H) (law_et L H) (law_yaml L H) (law_json L H)
+             (law_bson L H) (law_pickle L H)).
+  Qed.
+
+  Theorem L_formats_agree : forall f g m, representable L f m -> representable L g m ->
+    exists v w, loads L f (dumps L f m) = Ok v /\ loads L g (dumps L g m) = Ok w
+                /\ same_tree v (VMap m) /\ same_tree w (VMap m).
+  Proof.
+    intros f g m Df Dg.
+    destruct (L_fmt_roundtrip f m Df) as [v [Hv Sv]]. destruct (L_fmt_roundtrip g m Dg) as [w [Hw Sw]].
+    exists v, w. repeat split; assumption.
+  Qed.
+End OverLib.
+
+(* ------------------------------------------------------------------------------------------ *)
+(* the laws are satisfiable: an ideal library (documents are the values themselves) with a toy  *)
+(* float printer (sign, exponent and mantissa in binary)                                        *)
+(* ------------------------------------------------------------------------------------------ *)
+Fixpoint enc_pos (p : positive) : str :=
+  match p with xH => [] | xO q => 48%N :: enc_pos q | xI q => 49%N :: enc_pos q end.
+Fixpoint dec_pos (s : str) : option positive :=
+  match s with
+  | [] => Some xH
+  | c :: r => match dec_pos r with Some q => Some (if (c =? 48)%N then xO q else xI q) | None => None end
+  end.
+Definition enc_Z (z : Z) : str :=
+  match z with Z0 => [122%N] | Zpos p => 43%N :: enc_pos p | Zneg p => 45%N :: enc_pos p end.
+Definition dec_Z (s : str) : option Z :=
+  match s with
+  | [] => None
+  | c :: r => if (c =? 122)%N then Some 0
+              else match dec_pos r with Some p => Some (if (c =? 43)%N then Zpos p else Zneg p) | None => None end
+  end.
+Fixpoint split95 (s : str) : str * str :=
+  match s with
+  | [] => ([], [])
+  | c :: r => if (c =? 95)%N then ([], r) else let '(a, b) := split95 r in (c :: a, b)
+  end.
+Definition sgn (s : bool) : N := if s then 45%N else 43%N.
+Definition toy_str_of_float (f : spec_float) : str :=
+  match f with
+  | S754_zero s => [sgn s; 122%N]
+  | S754_infinity s => [sgn s; 105%N]
+  | S754_nan => [110%N]
+  | S754_finite s m e => sgn s :: 102%N :: enc_Z e ++ 95%N :: enc_pos m
+  end.
+Definition toy_float_of_str (s : str) : option spec_float :=
+  match s with
+  | [c] => if (c =? 110)%N then Some S754_nan else None
+  | c :: k :: r =>
+      let sg := (c =? 45)%N in
+      if (k =? 122)%N then Some (S754_zero sg)
+      else if (k =? 105)%N then Some (S754_infinity sg)
+      else if (k =? 102)%N then
+        let '(a, b) := split95 r in
+        match dec_Z a, dec_pos b with Some e, Some m => Some (S754_finite sg m e) | _, _ => None end
+      else None
+  | _ => None
+  end.
+
+Lemma dec_enc_pos : forall p, dec_pos (enc_pos p) = Some p.
+Proof. induction p as [q IH|q IH|]; cbn [enc_pos dec_pos]; [rewrite IH; reflexivity | rewrite IH; reflexivity | reflexivity]. Qed.
+Lemma dec_enc_Z : forall z, dec_Z (enc_Z z) = Some z.
+Proof. destruct z as [|p|p]; cbn [enc_Z dec_Z]; [reflexivity | | ]; cbn [N.eqb Pos.eqb]; rewrite dec_enc_pos; reflexivity. Qed.
+Lemma split95_pos : forall p b, split95 (enc_pos p ++ 95%N :: b) = (enc_pos p, b).
+Proof. induction p as [q IH|q IH|]; intros b; cbn [enc_pos app split95]; [cbn [N.eqb Pos.eqb]; rewrite IH; reflexivity | cbn [N.eqb Pos.eqb]; rewrite IH; reflexivity | reflexivity]. Qed.
+Lemma split95_Z : forall z b, split95 (enc_Z z ++ 95%N :: b) = (enc_Z z, b).
+Proof. destruct z as [|p|p]; intros b; cbn [enc_Z app split95]; [reflexivity | | ]; cbn [N.eqb Pos.eqb]; rewrite split95_pos; reflexivity. Qed.
+
+Lemma toy_float_law : forall f, toy_float_of_str (toy_str_of_float f) = Some f.
+Proof.
+  destruct f as [s|s| |s m e]; try (destruct s; reflexivity); [reflexivity|].
+  unfold toy_str_of_float, toy_float_of_str.
+  replace ((102 =? 122)%N) with false by reflexivity. replace ((102 =? 105)%N) with false by reflexivity.
+  replace ((102 =? 102)%N) with true by reflexivity. cbv iota beta.
+  rewrite split95_Z, dec_enc_Z, dec_enc_pos. destruct s; reflexivity.
+Qed.
+
+Lemma enc_pos_xml : forall p, xml_text (enc_pos p) = true.
+Proof. induction p as [q IH|q IH|]; cbn [enc_pos]; [exact IH | exact IH | reflexivity]. Qed.
+Lemma xml_text_app : forall a b, xml_text (a ++ b) = xml_text a && xml_text b.
+Proof. intros a b. unfold xml_text. apply forallb_app. Qed.
+Lemma toy_float_xml : forall f, xml_text (toy_str_of_float f) = true.
+Proof.
+  destruct f as [s|s| |s m e]; try (destruct s; reflexivity); [reflexivity|].
+  unfold toy_str_of_float. change (sgn s :: 102%N :: enc_Z e ++ 95%N :: enc_pos m) with ([sgn s; 102%N] ++ enc_Z e ++ [95%N] ++ enc_pos m).
+  rewrite !xml_text_app, enc_pos_xml.
+  assert (xml_text (enc_Z e) = true) as -> by (destruct e; [reflexivity | apply enc_pos_xml | apply enc_pos_xml]).
+  destruct s; reflexivity.
+Qed.
+
+Definition ideal_lib : lib ideal_doc :=
+  Lib ideal_doc toy_str_of_float toy_float_of_str
+      (fun e => inl e) (fun d => match d with inl e => Some e | inr _ => None end)
+      (fun v => inr (sort_keys v)) id_dec (fun _ v => inr v) id_dec id_enc id_dec id_enc id_dec
+      (fun _ => true) (fun _ => True) (fun _ => True) (fun _ => True) (fun _ => True).
+
+Example ideal_lib_laws : lib_laws ideal_lib.
+Proof.
+  constructor; cbn.
+  - intros f _. apply toy_float_law.
+  - apply toy_float_xml.
+  - reflexivity.
+  - reflexivity.
+  - intros e _. exists e. split; [reflexivity | apply sim_refl].
+  - reflexivity.
+  - reflexivity.
+  - reflexivity.
+  - reflexivity.
+Qed.
+
+(* every well-formed tree is representable by every format of the ideal library: the theorems are not vacuous *)
+Example ideal_roundtrip :
+  let m := [(sa "a", VList [VBool true; VInt (-12); VStr []; VNull; VList []; VMap []; VFloat (S754_finite true 4503599627370497 (-52))]);
+            (sa "B", VFloat S754_nan)] in
+  loads ideal_lib (FXml (sa "config")) (dumps ideal_lib (FXml (sa "config")) m) = Ok (VMap m)
+  /\ loads ideal_lib (FXml (sa "cfg")) (dumps ideal_lib (FXml (sa "config")) m) = Err EValue
+  /\ loads ideal_lib (FYaml (Some (sa "a"))) (dumps ideal_lib (FYaml (Some (sa "a"))) m) = Ok (sort_keys (VMap m)).
+Proof. vm_compute. repeat split. Qed.
